@@ -203,3 +203,19 @@ Corollary alpha_rises_iff_entropy_low (la target : R) (lp : list R) : lp <> [] -
 Proof.
   intro Hne. rewrite sac_alpha_gradient by exact Hne. pose proof (exp_pos la). split; intro H0; nra.
 Qed.
+
+(** update_ppo runs several epochs against the log-probabilities read once before the first update.  Re-reading
+    them in every epoch (old = current value, no tangent) makes every epoch look like the first one: a sample that
+    the fixed reference clips on its favoured side would keep receiving policy gradient. *)
+Theorem ppo_reread_refuted :
+  exists c lp old t A : R, 0 < c /\ 1 + c < exp (lp - old) /\ 0 < A /\
+    snd (ppo_term (F := D) (c, 0) (lp, t) (old, 0) (A, 0)) = 0 /\
+    snd (ppo_term (F := D) (c, 0) (lp, t) (lp, 0) (A, 0)) <> 0.
+Proof.
+  exists (1 / 5), 1, 0, 1, 1.
+  assert (He : 1 + 1 / 5 < exp (1 - 0)).
+  { replace (1 - 0) with 1 by ring. pose proof (exp_ineq1 1 ltac:(lra)). lra. }
+  split; [lra|]. split; [exact He|]. split; [lra|]. split.
+  - apply ppo_term_clipped_zero_grad; [lra|]. left. split; [exact He | lra].
+  - rewrite ppo_term_at_ratio_one by lra. cbn [snd]. lra.
+Qed.
